@@ -40,6 +40,7 @@ theorem quad_eq_of_mulVec_eq (A : Matrix n n 𝕜) (hA : IsUnit A.det) (k r x : 
   unfold quad
   rw [← hx, Matrix.mulVec_mulVec, Matrix.nonsing_inv_mul A hA, Matrix.one_mulVec]
 
+omit [DecidableEq n] in
 /-- entry `(i, j)` of `Bᵀ M B` as a bilinear form of the columns of `B` -/
 theorem transpose_mul_mul_apply {t : Type*} (B : Matrix n t 𝕜) (M : Matrix n n 𝕜) (i j : t) :
     (Bᵀ * M * B) i j = (fun a => B a i) ⬝ᵥ (M *ᵥ fun a => B a j) := by
